@@ -275,6 +275,17 @@ class CBFSystem(System):
             div = twin_divergence(self, cfg, st, lambda q: self._ro(cfg, q.impl, keys, hf, self._mk_other(cfg, keys, hf)), lambda x: bloomlib.bloom_observation(x.impl, True))
             if div is not None:
                 bad("C19", "cbf.queried_twin_diverges_one_step_later", div)
+        bb = call(bytes, f)
+        if bb[0] == "ok":
+            fresh_load = call(lambda: CountingBloomFilter.frombytes(bb[1], hash_function=hf))
+            if fresh_load[0] == "ok":
+                def answers(x):
+                    return ([call(x.check, k) for k in list(keys) + ["absent-1"]], call(x.estimate_elements),
+                            call(x.current_false_positive_rate), call(str, x))
+
+                if answers(f) != answers(fresh_load[1]):
+                    bad("C19", "cbf.answers_independent_of_earlier_queries", {"live": repr(answers(f))[:300],
+                                                                               "fresh_load": repr(answers(fresh_load[1]))[:300]})
         g = self.clone(st).impl
         c = call(g.clear)
         fresh = CountingBloomFilter(cfg["n"], cfg["p"], hash_function=hf)
